@@ -38,7 +38,7 @@ from ..engine.report import AnalysisError, Run
 from ..engine.resolver import Program, walk_no_nested
 from ..engine.terms import Poly
 from ._c04_util import (
-    STOPPED, LinInterp, StoreInterp, Sweep, compare_pairs, flip_strict, mirror, reach, splice, step_function, sweep_roles,
+    STOPPED, mk_system, with_op, LinInterp, StoreInterp, Sweep, compare_pairs, flip_strict, mirror, reach, splice, step_function, sweep_roles,
     synth,
 )
 from .c03 import BASE, BOUNDS, MAT, _report_orderings, check_quantity_truthiness, mk_excl, mk_proposal
@@ -111,6 +111,7 @@ def _same(it: OrderInterp, a: Any, b: Any) -> bool:
 def check_keep(run: Run, prog: Program) -> None:
     fn = prog.func(f"{BOUNDS}:adjust_exclusion_bounds")
     run.analysed(fn.qual)
+    run.analysed(f"{BOUNDS}:check_exclusion_bounds_overlap")
     if len(fn.params) != 3:
         raise AnalysisError(f"{fn.qual}: expected (lower_bound, upper_bound, exclusion_bounds)")
     it = LinInterp(prog, prog.module(BOUNDS))
@@ -417,6 +418,7 @@ def check_report(run: Run, prog: Program) -> None:
     fn = prog.func(f"{BASE}:_Report.adjust_to_bounds")
     clamp = prog.func(f"{BOUNDS}:clamp_to_bounds")
     run.analysed(fn.qual)
+    run.analysed(clamp.qual)
     if len(fn.params) != 2:
         raise AnalysisError(f"{fn.qual}: expected (self, power)")
     it = LinInterp(prog, prog.module(BASE))
@@ -511,17 +513,22 @@ def check_report(run: Run, prog: Program) -> None:
 
 # ---------------------------------------------------------------------------------------------
 def check_store(run: Run, prog: Program) -> None:
-    """Whatever its shape, the proposal handed to calculate_target_power is a member of the bucket
-    the sweep is run over (it replaces the actor's previous one; it is never dropped)."""
+    """C04.STORE  whatever its shape, the proposal handed to calculate_target_power is - as that very
+                  object, not an equal older one - a member of the bucket the sweep is run over.
+       C04.RESULT the freshly computed target is returned unless it equals the remembered one and the
+                  caller did not insist (only then may the result be None)."""
     ct = prog.func(CTP)
     calc = prog.func(CALC)
     run.analysed(ct.qual)
     if len(ct.params) != 5 or ct.cls is None:
         raise AnalysisError(f"{ct.qual}: expected (self, component_ids, proposal, system_bounds, must_return_power)")
+    val = prog.resolve_method(ct.cls, "_validate_component_ids")
+    if val is not None:
+        run.analysed(val.qual)
     it = StoreInterp(prog, prog.module(MAT))
     ctx: dict[str, Any] = {}
     scenarios = ["first proposal of the group", "replaces the actor's previous proposal",
-                 "joins another actor's proposal"]
+                 "joins another actor's proposal", "no new proposal, bucket exists"]
 
     def make_args() -> dict[str, Any]:
         it.globals["__ZERO__"] = Atom("ZERO")
@@ -531,40 +538,123 @@ def check_store(run: Run, prog: Program) -> None:
         it.assume("<=", zero, su)
         sysb = Obj("SystemBounds", inclusion_bounds=Obj("Bounds", lower=sl, upper=su), exclusion_bounds=None)
         sc = it.choose(len(scenarios), "bucket before the call")
-        p = mk_proposal(it, tag="new")
-        p.fields["priority"] = 3
+        p: Any = None
+        if sc != 3:
+            p = mk_proposal(it, tag="new")
+            p.fields["priority"] = 3
         buckets: dict[str, Any] = {}
         if sc == 1:
             old = mk_proposal(it, tag="old", shapes=[(1, 1, 1)])
             old.fields.update(priority=3, source_id=p.fields["source_id"])
-            buckets["ids"] = {it.key(old)}
-        elif sc == 2:
+            buckets["ids"] = it.keyset([old])
+        elif sc in (2, 3):
             other = mk_proposal(it, tag="other", shapes=[(1, 1, 1)])
             other.fields["priority"] = 4
-            buckets["ids"] = {it.key(other)}
-        so = Obj(ct.cls.name, _component_buckets=buckets, _target_power={})  # type: ignore[union-attr]
-        ctx.update(p=p, so=so)
-        return dict(zip(ct.params, (so, "ids", p, sysb, False)))
+            buckets["ids"] = it.keyset([other])
+        stored = Atom("OLD_TARGET") if it.choose(2, "a target is remembered") == 1 else None
+        must = it.choose(2, "must_return_power") == 1
+        so = Obj(ct.cls.name, _component_buckets=buckets,  # type: ignore[union-attr]
+                 _target_power={"ids": stored} if stored is not None else {})
+        ctx.update(p=p, so=so, stored=stored, must=must)
+        return dict(zip(ct.params, (so, "ids", p, sysb, must)))
 
-    def post(_res: Any) -> Any:
+    def post(res: Any) -> Any:
+        p = ctx["p"]
+        out: dict[str, Any] = {"store": None, "result": None}
         if len(it.stub_calls) != 1:
-            return ("bad", [f"the target is computed {len(it.stub_calls)} time(s) for a new proposal"])
-        pos, kw = it.stub_calls[0]
-        bucket = pos[0] if pos else kw.get(calc.params[1])
-        if not isinstance(bucket, (set, frozenset, list, tuple)):
-            return ("shape", f"the sweep is run over {bucket!r}, not over a bucket of proposals")
-        keys = {it.key(x) for x in bucket}
-        if it.key(ctx["p"]) not in keys:
-            return ("bad", ["the proposal handed to calculate_target_power is not in the bucket the sweep is "
-                            "run over: its bounds and preference are dropped (a proposal of this shape counts as "
-                            "a withdrawal), so lower priorities are no longer restricted by it"])
-        return None
+            out["store"] = ("bad", [f"the target is computed {len(it.stub_calls)} time(s) in one call"])
+            return out
+        if p is not None:
+            pos, kw = it.stub_calls[0]
+            bucket = pos[0] if pos else kw.get(calc.params[1])
+            if not isinstance(bucket, (set, frozenset, list, tuple)):
+                out["store"] = ("shape", f"the sweep is run over {bucket!r}, not over a bucket of proposals")
+                return out
+            members = list(bucket.objs.values()) if hasattr(bucket, "objs") else list(bucket)
+            if not any(it.key(x) == it.key(p) for x in members if isinstance(x, Obj)) and it.key(p) not in bucket:
+                out["store"] = ("bad", ["the proposal handed to calculate_target_power is not in the bucket the "
+                                        "sweep is run over: its bounds and preference are dropped (a proposal of this "
+                                        "shape counts as a withdrawal), so lower priorities are no longer restricted "
+                                        "by it"])
+            elif not any(x is p for x in members):
+                out["store"] = ("bad", ["the bucket the sweep is run over still holds the actor's previous proposal "
+                                        "instead of the new one (set.add keeps an equal element): the stale bounds and "
+                                        "preference stay in force"])
+        new, stored = it.stub_result, ctx["stored"]
+        if res is None:
+            if ctx["must"] or stored is None or not it.entails("=", stored, new):
+                why = "the caller insists on a value" if ctx["must"] else (
+                    "no target is remembered" if stored is None else "it differs from the remembered one")
+                out["result"] = ("bad", [f"the freshly computed target is not returned although {why}: the new "
+                                         "target never takes effect"])
+        elif res is not new:
+            out["result"] = ("bad", [f"{res!r} is returned instead of the freshly computed target"])
+        return out
 
     outs = it.explore(ct.node, make_args, post)
-    _report_orderings(run, "C04.STORE", ct, outs, "every proposal, whatever its shape, is in the bucket the "
-                      "sweep runs over")
+    import copy as _copy
+    outs_r = []
+    for o in outs:
+        if isinstance(o.post, dict):
+            r = _copy.copy(o)
+            r.post = o.post["result"]
+            outs_r.append(r)
+            o.post = o.post["store"]
+        else:
+            outs_r.append(o)
+    _report_orderings(run, "C04.STORE", ct, outs, "every proposal, whatever its shape, is (as that object) in "
+                      "the bucket the sweep runs over")
+    _report_orderings(run, "C04.RESULT", ct, outs_r, "the freshly computed target is returned unless unchanged "
+                      "and not insisted on")
     if len(outs) < 24:
         raise AnalysisError(f"{ct.qual}: only {len(outs)} abstract paths")
+
+
+# ---------------------------------------------------------------------------------------------
+def check_order(run: Run, prog: Program) -> None:
+    """C04.DESC  both sweeps visit the proposals from the highest to the lowest priority: the iterable
+    of the proposal loop, evaluated on a scrambled bucket of three priorities, is descending."""
+    for sw in (calc_sweep(prog), stat_sweep(prog)):
+        fn = sw.fn
+        run.analysed(fn.qual)
+        it = LinInterp(prog, prog.module(MAT))
+        visit = synth("visit_order", list(sw.pro) + [ast.Assign(
+            targets=[ast.Name(id="_visit_order", ctx=ast.Store())], value=sw.loop.iter)], ["_visit_order"])
+        ctx: dict[str, Any] = {}
+
+        def make(sw: Sweep = sw, fn: Any = fn, it: LinInterp = it, ctx: dict[str, Any] = ctx) -> dict[str, Any]:
+            sysb, _incl, _excl = mk_system(it, "strict")
+            props = []
+            for prio in (2, 3, 1):
+                p = mk_proposal(it, tag=f"p{prio}", shapes=[(1, 1, 1)])
+                p.fields["priority"] = prio
+                props.append(p)
+            ctx["want"] = sorted(props, key=lambda p: -p.fields["priority"])
+            so = sw.self_obj()
+            assert so is not None
+            so.fields["_component_buckets"] = {"ids": list(props)}
+            args: dict[str, Any] = {fn.params[0]: so, sw.sys_param: sysb}
+            if fn.name == "get_status":
+                args.update({fn.params[1]: "ids", fn.params[2]: 0})
+            else:
+                args[fn.params[1]] = list(props)
+            return args
+
+        def post(res: Any, ctx: dict[str, Any] = ctx) -> Any:
+            seq = res[0] if isinstance(res, tuple) and len(res) == 1 else None
+            if not isinstance(seq, (list, tuple)):
+                return ("shape", f"the proposal loop iterates {seq!r}")
+            got = [x.fields.get("priority") if isinstance(x, Obj) else x for x in seq]
+            if len(seq) != 3 or any(a is not b for a, b in zip(seq, ctx["want"])):
+                return ("bad", [f"a bucket with priorities (2, 3, 1) is swept in the order {got}, not from the "
+                                "highest to the lowest priority: higher-priority bounds would not be in force when "
+                                "a lower-priority preference is clamped"])
+            return None
+
+        outs = it.explore(visit, make, post)
+        _report_orderings(run, "C04.DESC", fn, outs, "the sweep visits proposals in descending priority order")
+        if not outs:
+            raise AnalysisError(f"{fn.qual}: the iterable of the proposal loop could not be evaluated")
 
 
 # ---------------------------------------------------------------------------------------------
@@ -697,6 +787,41 @@ def structural_controls(prog: Program) -> list[tuple[str, str, str, str, str]]: 
                 edits.append((n, f"if {a}.preferred_power is not None or {a}.bounds.lower is not None: "
                                  f"{ast.unparse(n)}"))
     add("upper-bound-only proposal not stored", MAT, edits, "C04.STORE")
+
+    # 9. the old proposal of the actor is not taken out before the new one is added
+    edits = []
+    for h in reach(prog, ct):
+        if h.name == swc.fn.name:
+            continue
+        for n in walk_no_nested(h.node):
+            if isinstance(n, ast.Expr) and isinstance(n.value, ast.Call) and isinstance(n.value.func, ast.Attribute) \
+                    and n.value.func.attr in ("remove", "discard") and len(n.value.args) == 1 and not edits:
+                edits.append((n, "pass"))
+    add("previous proposal not removed before add", MAT, edits, "C04.STORE")
+
+    # 10. the changed / unchanged test of the result is inverted
+    edits = []
+    for h in reach(prog, ct):
+        if h.name == swc.fn.name:
+            continue
+        for c in compares(list(h.node.body)):
+            if len(c.ops) == 1 and isinstance(c.ops[0], (ast.Eq, ast.NotEq)) and not edits and any(
+                    isinstance(x, ast.Attribute) and x.attr == "_target_power" for x in ast.walk(c)):
+                t = with_op(c, 0, {ast.Eq: ast.NotEq, ast.NotEq: ast.Eq})
+                if t:
+                    edits.append((c, t))
+    add("new target returned only when unchanged", MAT, edits, "C04.RESULT")
+
+    # 11. the target sweep runs from the lowest to the highest priority
+    edits = []
+    for n in (n for st in list(swc.pro) + [swc.loop.iter] for n in ast.walk(st)):
+        if isinstance(n, ast.Call) and not edits:
+            kws = [k for k in n.keywords if k.arg == "reverse" and isinstance(k.value, ast.Constant)]
+            if kws:
+                edits.append((kws[0].value, repr(not kws[0].value.value)))
+            elif _is_name(n.func, "reversed") and len(n.args) == 1:
+                edits.append((n, "(" + ast.unparse(n.args[0]) + ")"))
+    add("target sweep in ascending priority order", MAT, edits, "C04.DESC")
     return out
 
 
@@ -706,6 +831,7 @@ def run_rules(run: Run, prog: Program, tier: str = "quick") -> None:
     check_adopt(run, prog, tier)
     check_report(run, prog)
     check_store(run, prog)
+    check_order(run, prog)
 
 
 def check(run: Run, prog: Program, tier: str) -> str:
@@ -721,6 +847,9 @@ def check(run: Run, prog: Program, tier: str) -> str:
              "get_status reports the swept bounds with the system exclusion zone")
     run.rule("C04.STORE", "every proposal handed to calculate_target_power, whatever its shape, is in the "
              "bucket the sweep is run over")
+    run.rule("C04.RESULT", "calculate_target_power returns the freshly computed target unless it equals the "
+             "remembered one and the caller does not insist")
+    run.rule("C04.DESC", "both sweeps visit the proposals in descending priority order")
     check_quantity_truthiness(run)
     run_rules(run, prog, tier)
     run.floor("C04.SIB", 100)
@@ -730,6 +859,8 @@ def check(run: Run, prog: Program, tier: str) -> str:
     run.floor("C04.REPORT", 5)
     run.floor("C04.TIE", 2)
     run.floor("C04.STORE", 24)
+    run.floor("C04.RESULT", 24)
+    run.floor("C04.DESC", 2)
     from ..engine.controls import run_controls
 
     def select(expect: str):
@@ -738,7 +869,8 @@ def check(run: Run, prog: Program, tier: str) -> str:
                 "C04.NOOP": lambda r, p: check_adopt(r, p, "quick"),
                 "C04.TIE": lambda r, p: check_adopt(r, p, "quick"),
                 "C04.REPORT": lambda r, p: check_report(r, p),
-                "C04.STORE": lambda r, p: check_store(r, p)}[expect]
+                "C04.STORE": lambda r, p: check_store(r, p), "C04.RESULT": lambda r, p: check_store(r, p),
+                "C04.DESC": lambda r, p: check_order(r, p)}[expect]
 
     run_controls(run, structural_controls(prog), run_rules, tier, base_prog=prog, select=select)
     run.undecided("optimality over conflicting proposal sets (outside the quantifier); end-to-end "
